@@ -36,6 +36,9 @@ pub enum Item {
     /// two calls with a literal argument each in one expression: `cr = fc("a") + fc("b");`, or
     /// nested: `cr = gc("a", fc("b"));`
     TwoCalls(Lit, Lit, bool),
+    /// three literals over nested calls: 0 = `gc("a", gc("b", fc("c")))`, 1 = `fc("a") + gc("b", fc("c"))`,
+    /// 2 = `gc("a", fc("b")) + fc("c")`
+    ThreeCalls(Lit, Lit, Lit, u8),
 }
 
 #[derive(Debug, Clone, Serialize, Deserialize)]
@@ -306,7 +309,8 @@ pub fn gen_case(g: &mut G, ex: &Excl) -> Case {
     for _ in 0..ns {
         stmts.push(match g.below(5) {
             0 => Item::CallArg(gen_lit(g, 10, ex)),
-            1 => Item::TwoCalls(gen_lit(g, 6, ex), gen_lit(g, 6, ex), g.chance(1, 2)),
+            1 if g.chance(1, 2) => Item::TwoCalls(gen_lit(g, 6, ex), gen_lit(g, 6, ex), g.chance(1, 2)),
+            1 => Item::ThreeCalls(gen_lit(g, 5, ex), gen_lit(g, 5, ex), gen_lit(g, 5, ex), g.below(3) as u8),
             2 | 3 => Item::Assign(gen_lit(g, 10, ex)),
             _ => {
                 let t = *g.pick(&["nop ; // not a comment", "lda #1 /* text */", "sta FOO", "; #define X 1", "nop"]);
@@ -339,6 +343,11 @@ fn item_text(it: &Item) -> String {
         }
         Item::CharConst(k, p) => format!("const char c{} = '{}';", k, spell(&vec![p.clone()])),
         Item::CallArg(l) => format!("ff(\"{}\");", spell(l)),
+        Item::ThreeCalls(a, b, c, shape) => match shape {
+            0 => format!("cr = gc(\"{}\", gc(\"{}\", fc(\"{}\")));", spell(a), spell(b), spell(c)),
+            1 => format!("cr = fc(\"{}\") + gc(\"{}\", fc(\"{}\"));", spell(a), spell(b), spell(c)),
+            _ => format!("cr = gc(\"{}\", fc(\"{}\")) + fc(\"{}\");", spell(a), spell(b), spell(c)),
+        },
         Item::TwoCalls(a, b, nested) => {
             if *nested {
                 format!("cr = gc(\"{}\", fc(\"{}\"));", spell(a), spell(b))
@@ -372,7 +381,7 @@ pub fn source(c: &Case) -> String {
         s.push_str(&format!("#define {} {}\n", n, v));
     }
     s.push_str("char *pp;\nvoid ff(char *q) { }\n");
-    if c.stmts.iter().any(|i| matches!(i, Item::TwoCalls(..))) {
+    if c.stmts.iter().any(|i| matches!(i, Item::TwoCalls(..) | Item::ThreeCalls(..))) {
         s.push_str("char cr;\nchar fc(char *q) { return 1; }\nchar gc(char *q, char c) { return c; }\n");
     }
     let has_header = !c.header.is_empty() || !c.header_macros.is_empty();
@@ -427,6 +436,7 @@ pub fn check(case: &Case, st: &mut Stats, ex: &Excl) -> Result<(), String> {
                 Item::Array(_, p) | Item::Table(_, p) => hit |= p.iter().any(bad),
                 Item::CallArg(l) | Item::Assign(l) => hit |= bad(l),
                 Item::TwoCalls(a, b, _) => hit |= bad(a) || bad(b),
+                Item::ThreeCalls(a, b, c, _) => hit |= bad(a) || bad(b) || bad(c),
                 _ => {}
             }
         }
@@ -548,9 +558,14 @@ pub fn check(case: &Case, st: &mut Stats, ex: &Excl) -> Result<(), String> {
                     nt = true;
                 }
             }
-            Item::TwoCalls(a, b, _) => {
-                st.count("label:two-literal-calls-in-one-expression");
-                for l in [a, b] {
+            Item::TwoCalls(..) | Item::ThreeCalls(..) => {
+                st.count("label:several-literal-calls-in-one-expression");
+                let lits: Vec<&Lit> = match it {
+                    Item::TwoCalls(a, b, _) => vec![a, b],
+                    Item::ThreeCalls(a, b, c, _) => vec![a, b, c],
+                    _ => vec![],
+                };
+                for l in lits {
                     st.count("literals");
                     let mut want = decode(l);
                     want.push(0);
